@@ -247,3 +247,267 @@ Print Assumptions C14_no_empty_shape_remove.
 Example C14_valid_nonvacuous :
   class_iris_ok base_rcfg g_reftie_1 = true /\ class_iris_ok base_rcfg g_shared = true.
 Proof. split; vm_compute; reflexivity. Qed.
+
+(** ** Second half of the property: "the incoming constraints inverse_paths
+    adds are exactly the outgoing constraints obtained from the graph with
+    every non-literal triple reversed".
+
+    [C14_inverse_part] above: per class, the inverse statements are what the
+    DIRECT strategy computes from the class's inverse FEATURES.  Here
+    (Proofs/EndToEnd3.v): the inverse features of [g] ARE the direct features
+    of [reverse_nonliteral tau g] -- typing triples kept, every other triple
+    with a node object turned around, literal-object triples dropped -- for a
+    FIXED instance dictionary [I] (membership is read from the original graph)
+    and properties other than the instantiation property, under [iri_nodes]
+    (every subject and node object of a non-typing triple is an IRI).  The
+    exclusion is real: a blank-node subject that is an instance gives its
+    object an incoming link WITHOUT shape reference (QUIRK Q4 of
+    Spec/Counts.v), the reversed triple gives an outgoing link WITH it
+    ([C14_keys_inverse_bnode_refuted], [C14_cnt_inverse_bnode_refuted]). *)
+From Shexer Require Import Spec.Counts Proofs.EndToEnd3.
+
+Theorem C14_reverse_nonliteral_unfold : forall tau g,
+  reverse_nonliteral tau g =
+  flat_map (fun t => if str_eqb (tp t) tau then [t]
+                     else match to t with
+                          | ON o => [T o (tp t) (ON (ts t))]
+                          | OL _ _ => []
+                          end) g.
+Proof. reflexivity. Qed.
+
+Theorem C14_iri_nodes_unfold : forall tau g,
+  iri_nodes tau g <->
+  forall t, In t g -> tp t <> tau ->
+    nk (ts t) = KIri /\ forall o, to t = ON o -> nk o = KIri.
+Proof. exact iri_nodes_unfold. Qed.
+
+(** one triple: [keys_inverse] on (s p o) = [keys_direct] on (o p s) exactly
+    when the subject is an IRI (or is no instance) *)
+Theorem C14_keys_inverse_is_direct_reversed : forall tau (I : insts) s p o,
+  str_eqb p tau = false ->
+  (keys_inverse tau I (T s p (ON o)) = keys_direct tau I (T o p (ON s)) <->
+   nk s = KIri \/ classes_of I (nid s) = []).
+Proof. exact keys_inverse_is_direct_reversed_iff. Qed.
+Print Assumptions C14_keys_inverse_is_direct_reversed.
+
+Lemma C14_keys_inverse_bnode_refuted :
+  exists tau I s p o,
+    str_eqb p tau = false /\ nk s = KBnode /\
+    keys_inverse tau I (T s p (ON o)) = [c_BNODE_ELEM_TYPE] /\
+    keys_direct tau I (T o p (ON s)) = [c_BNODE_ELEM_TYPE; shape_name c_SHAPES_DEFAULT_NAMESPACE rv_C] /\
+    keys_inverse tau I (T s p (ON o)) <> keys_direct tau I (T o p (ON s)).
+Proof. exact keys_inverse_is_direct_reversed_bnode_refuted. Qed.
+
+(** (A1) per instance *)
+Theorem C14_cnt_inverse_is_reverse : forall tau (I : insts) g i p k,
+  p <> tau -> iri_nodes tau g ->
+  cnt Inverse tau I g i p k = cnt Direct tau I (reverse_nonliteral tau g) i p k.
+Proof. exact cnt_inverse_is_reverse. Qed.
+Print Assumptions C14_cnt_inverse_is_reverse.
+
+Lemma C14_cnt_inverse_bnode_refuted :
+  exists tau I g i p k,
+    p <> tau /\ ~ iri_nodes tau g /\
+    cnt Inverse tau I g i p k = 0%N /\ cnt Direct tau I (reverse_nonliteral tau g) i p k = 1%N.
+Proof. exact cnt_inverse_is_reverse_bnode_refuted. Qed.
+
+(** (A2) per class *)
+Theorem C14_occ_inverse_is_reverse : forall tau (I : insts) g c p k card,
+  p <> tau -> iri_nodes tau g ->
+  occ Inverse tau I g c p k card = occ Direct tau I (reverse_nonliteral tau g) c p k card.
+Proof. exact occ_inverse_is_reverse. Qed.
+Print Assumptions C14_occ_inverse_is_reverse.
+
+(** (A3) the class profile, profile-level cleaning off: the profiler run
+    WITHOUT inverse paths on the reversed graph succeeds whenever the run WITH
+    inverse paths on [g] does, has the same class keys (in order) and class
+    counts, and for every class and property other than [tau] the inverse
+    part of the one and the direct part of the other hold the same number
+    under every lookup and have the same entries *)
+Theorem C14_inverse_is_reverse_profile : forall cfg (I : insts) g P C ID,
+  NoDup (dkeys I) -> iri_nodes (p_tau cfg) g -> p_remove_empty cfg = false ->
+  profile (set_inverse cfg true) I g = inl (P, C, ID) ->
+  exists P' ID',
+    profile (set_inverse cfg false) I (reverse_nonliteral (p_tau cfg) g) = inl (P', C, ID') /\
+    dkeys P' = dkeys P /\
+    forall c e, dget P c = Some e ->
+      exists e', dget P' c = Some e' /\
+        forall p, p <> p_tau cfg ->
+          (forall k card, plook (c_inverse e) p k card = plook (c_direct e') p k card) /\
+          (forall k, pmem (c_inverse e) p k = pmem (c_direct e') p k).
+Proof. exact profile_inverse_is_reverse. Qed.
+Print Assumptions C14_inverse_is_reverse_profile.
+
+(** the same before the profile-level cleaning, whatever [remove_empty] *)
+Theorem C14_inverse_is_reverse_raw_profile : forall cfg (I : insts) g ID P1 C0 ID' P1' C0',
+  NoDup (dkeys I) -> iri_nodes (p_tau cfg) g ->
+  annotate_all (p_tau cfg) true g (adapt I) = inl ID ->
+  raw_profile (set_inverse cfg true) I ID = (P1, C0) ->
+  annotate_all (p_tau cfg) false (reverse_nonliteral (p_tau cfg) g) (adapt I) = inl ID' ->
+  raw_profile (set_inverse cfg false) I ID' = (P1', C0') ->
+  dkeys P1' = dkeys P1 /\ C0' = C0 /\
+  forall c e, dget P1 c = Some e ->
+    exists e', dget P1' c = Some e' /\
+      forall p, p <> p_tau cfg ->
+        (forall k card, plook (c_inverse e) p k card = plook (c_direct e') p k card) /\
+        (forall k, pmem (c_inverse e) p k = pmem (c_direct e') p k).
+Proof. exact raw_profile_inverse_is_reverse. Qed.
+Print Assumptions C14_inverse_is_reverse_raw_profile.
+
+(** the feature pass fails on the reversed graph iff on the graph *)
+Theorem C14_reverse_same_failures : forall tau inv inv' (I : insts) g,
+  (exists ID, annotate_all tau inv g (adapt I) = inl ID) <->
+  (exists ID, annotate_all tau inv' (reverse_nonliteral tau g) (adapt I) = inl ID).
+Proof. exact annotate_all_ok_reverse. Qed.
+Print Assumptions C14_reverse_same_failures.
+
+(** non-vacuity: an IRI-only graph
+      a : C . b : C . d : D .   a p b . a p d . b p d . d q a . a p "v"       *)
+Definition rv_iri (s : string) : node := Node KIri (Str "http://ex.org/" ++ Str s).
+Definition rv_D : str := Str "http://ex.org/D".
+Definition rv_q : str := Str "http://ex.org/q".
+Definition rv_G : graph :=
+  [ T (rv_iri "a") rv_tau (ON (Node KIri rv_C));
+    T (rv_iri "b") rv_tau (ON (Node KIri rv_C));
+    T (rv_iri "d") rv_tau (ON (Node KIri rv_D));
+    T (rv_iri "a") rv_p (ON (rv_iri "b"));
+    T (rv_iri "a") rv_p (ON (rv_iri "d"));
+    T (rv_iri "b") rv_p (ON (rv_iri "d"));
+    T (rv_iri "d") rv_q (ON (rv_iri "a"));
+    T (rv_iri "a") rv_p (OL (Str "v") (Str "http://www.w3.org/2001/XMLSchema#string")) ].
+Definition rv_cfg : pcfg :=
+  {| p_tau := rv_tau; p_inverse := true; p_remove_empty := false; p_targets := None; p_map_labels := [] |}.
+
+Example C14_reverse_example_graph :
+  reverse_nonliteral rv_tau rv_G =
+  [ T (rv_iri "a") rv_tau (ON (Node KIri rv_C));
+    T (rv_iri "b") rv_tau (ON (Node KIri rv_C));
+    T (rv_iri "d") rv_tau (ON (Node KIri rv_D));
+    T (rv_iri "b") rv_p (ON (rv_iri "a"));
+    T (rv_iri "d") rv_p (ON (rv_iri "a"));
+    T (rv_iri "d") rv_p (ON (rv_iri "b"));
+    T (rv_iri "a") rv_q (ON (rv_iri "d")) ] /\
+  iri_nodesb rv_tau rv_G = true.
+Proof. split; vm_compute; reflexivity. Qed.
+
+Definition rv_Ig : insts :=
+  [ (nid (rv_iri "a"), [rv_C]); (nid (rv_iri "b"), [rv_C]); (nid (rv_iri "d"), [rv_D]) ].
+
+Example C14_inverse_is_reverse_hypotheses :
+  track rv_tau TAll (-1) rv_G = inl rv_Ig /\ NoDup (dkeys rv_Ig) /\ iri_nodes rv_tau rv_G.
+Proof.
+  split; [vm_compute; reflexivity|]. split.
+  - repeat constructor; cbn; intros H; repeat (destruct H as [H|H]; [discriminate H|]); exact H.
+  - apply iri_nodesb_ok. vm_compute. reflexivity.
+Qed.
+
+Example C14_inverse_is_reverse_nonvacuous :
+  exists P C ID P' ID' eD eD',
+    profile (set_inverse rv_cfg true) rv_Ig rv_G = inl (P, C, ID) /\
+    profile (set_inverse rv_cfg false) rv_Ig (reverse_nonliteral rv_tau rv_G) = inl (P', C, ID') /\
+    dget P rv_D = Some eD /\ dget P' rv_D = Some eD' /\
+    (* d <- a, d <- b: the one instance of D has two incoming p-links, from IRIs of shape C *)
+    plook (c_inverse eD) rv_p c_IRI_ELEM_TYPE (CKn 2) = 1%N /\
+    plook (c_direct eD') rv_p c_IRI_ELEM_TYPE (CKn 2) = 1%N /\
+    plook (c_inverse eD) rv_p (shape_name c_SHAPES_DEFAULT_NAMESPACE rv_C) (CKn 2) = 1%N /\
+    plook (c_direct eD') rv_p (shape_name c_SHAPES_DEFAULT_NAMESPACE rv_C) (CKn 2) = 1%N /\
+    (* the whole inverse part for properties other than tau is the direct part of the reversed run *)
+    filter (fun pe => negb (str_eqb (fst pe) rv_tau)) (c_inverse eD) =
+    filter (fun pe => negb (str_eqb (fst pe) rv_tau)) (c_direct eD') /\
+    c_inverse eD <> [].
+Proof.
+  destruct (profile (set_inverse rv_cfg true) rv_Ig rv_G) as [[[P C] ID]|] eqn:HP; vm_compute in HP; [|discriminate HP].
+  injection HP as <- <- <-.
+  destruct (profile (set_inverse rv_cfg false) rv_Ig (reverse_nonliteral rv_tau rv_G)) as [[[P' C'] ID']|] eqn:HP';
+    vm_compute in HP'; [|discriminate HP'].
+  injection HP' as <- <- <-.
+  do 7 eexists. split; [reflexivity|]. split; [reflexivity|].
+  split; [vm_compute; reflexivity|]. split; [vm_compute; reflexivity|].
+  vm_compute. repeat split; try reflexivity. discriminate.
+Qed.
+
+(** (A3, strong form) outside [tau] the inverse part of a class entry of the
+    run on [g] and the direct part of the class entry of the run on the
+    reversed graph are EQUAL AS DICTIONARIES: same keys in the same order at
+    the three levels (property, type key, cardinality), same numbers.  The
+    order matters because the shexing stage iterates over the dictionaries and
+    its sorts are stable; it coincides because the reversal keeps the document
+    order of the triples. *)
+Theorem C14_inverse_is_reverse_entries : forall cfg (I : insts) g ID P1 C0 ID' P1' C0',
+  NoDup (dkeys I) -> iri_nodes (p_tau cfg) g ->
+  annotate_all (p_tau cfg) true g (adapt I) = inl ID ->
+  raw_profile (set_inverse cfg true) I ID = (P1, C0) ->
+  annotate_all (p_tau cfg) false (reverse_nonliteral (p_tau cfg) g) (adapt I) = inl ID' ->
+  raw_profile (set_inverse cfg false) I ID' = (P1', C0') ->
+  forall c e e', dget P1 c = Some e -> dget P1' c = Some e' ->
+    filter (fun pe => negb (str_eqb (fst pe) (p_tau cfg))) (c_inverse e) =
+    filter (fun pe => negb (str_eqb (fst pe) (p_tau cfg))) (c_direct e').
+Proof. exact raw_profile_inverse_is_reverse_eq. Qed.
+Print Assumptions C14_inverse_is_reverse_entries.
+
+(** the tracker reads typing triples only: the instance dictionary of the
+    reversed graph is that of the graph, so "instances from [g], features from
+    the reversed graph" is the plain run on the reversed graph *)
+Theorem C14_track_reverse : forall tau m cap g,
+  track tau m cap (reverse_nonliteral tau g) = track tau m cap g.
+Proof. exact track_reverse. Qed.
+Print Assumptions C14_track_reverse.
+
+Theorem C14_run_shapes2_reverse : forall fa c (thr : F fa) g,
+  Run2.run_shapes2 fa c thr g (reverse_nonliteral (r_tau c) g) =
+  run_shapes fa c thr (reverse_nonliteral (r_tau c) g).
+Proof. exact run_shapes2_reverse. Qed.
+
+(** (A4) statement level, remove_empty_shapes off, [iri_nodes]: when the run
+    with inverse paths on [g] and the run without inverse paths that reads the
+    instances from [g] and the features from the reversed graph both succeed,
+    they produce the same shapes prefix and, shape by shape in the same order,
+    the same label, class and instance count, and the INCOMING constraints of
+    the first for the properties other than [tau] are EXACTLY the OUTGOING
+    constraints of the second for those properties with the direction flag
+    set: same order, same keys, cardinalities, figures and comments. *)
+Theorem C14_inverse_is_reverse_statements : forall c thr g ns st ns' sr,
+  r_remove_empty c = false -> iri_nodes (r_tau c) g ->
+  Run2.run_shapes2 BAlg (rwith_inverse true c) thr g g = inl (ns, st) ->
+  Run2.run_shapes2 BAlg (rwith_inverse false c) thr g (reverse_nonliteral (r_tau c) g) = inl (ns', sr) ->
+  ns' = ns /\
+  Forall2 (fun sh_t sh_r =>
+    sh_name sh_t = sh_name sh_r /\ sh_class sh_t = sh_class sh_r /\ sh_n sh_t = sh_n sh_r /\
+    filter (fun s => s_inv s && negb (str_eqb (s_prop s) (r_tau c))) (sh_stmts sh_t) =
+    map set_inv (filter (fun s => negb (str_eqb (s_prop s) (r_tau c))) (sh_stmts sh_r))) st sr.
+Proof.
+  intros c thr g ns st ns' sr Hre Hg Ht Hr.
+  change (r_tau c) with (r_tau (rwith_inverse false c)) in Hr at 1. rewrite run_shapes2_reverse in Hr.
+  exact (run_inverse_is_reverse BAlg c thr g ns st ns' sr order_at_BAlg Hre Hg Ht Hr).
+Qed.
+Print Assumptions C14_inverse_is_reverse_statements.
+
+(** for any algebra whose [fle] is a total preorder at every class size *)
+Theorem C14_inverse_is_reverse_statements_alg : forall fa c (thr : F fa) g ns st ns' sr,
+  (forall n, order_at fa n) -> r_remove_empty c = false -> iri_nodes (r_tau c) g ->
+  run_shapes fa (rwith_inverse true c) thr g = inl (ns, st) ->
+  run_shapes fa (rwith_inverse false c) thr (reverse_nonliteral (r_tau c) g) = inl (ns', sr) ->
+  ns' = ns /\ Forall2 (inverse_is_reverse (r_tau c)) st sr.
+Proof. exact run_inverse_is_reverse. Qed.
+Print Assumptions C14_inverse_is_reverse_statements_alg.
+
+From Shexer Require Import Proofs.EndToEnd.
+
+(** non-vacuity of (A4) on the IRI-only graph [rv_G] above (remove_empty_shapes
+    off): both runs succeed, each shape of the run with inverse paths has
+    incoming constraints outside [tau], and they are the outgoing constraints
+    of the reversed run with the flag set *)
+Definition rv_rcfg : rcfg := rwith_inverse true (EndToEnd.with_remove_empty false base_rcfg).
+
+Example C14_inverse_is_reverse_statements_nonvacuous :
+  exists ns st sr,
+    r_tau rv_rcfg = rv_tau /\
+    Run2.run_shapes2 BAlg (rwith_inverse true rv_rcfg) thr0 rv_G rv_G = inl (ns, st) /\
+    Run2.run_shapes2 BAlg (rwith_inverse false rv_rcfg) thr0 rv_G (reverse_nonliteral rv_tau rv_G) = inl (ns, sr) /\
+    map (fun sh => List.length (filter (fun s => s_inv s && negb (str_eqb (s_prop s) rv_tau)) (sh_stmts sh))) st = [2; 1]%nat /\
+    map (fun sh => filter (fun s => s_inv s && negb (str_eqb (s_prop s) rv_tau)) (sh_stmts sh)) st =
+    map (fun sh => map set_inv (filter (fun s => negb (str_eqb (s_prop s) rv_tau)) (sh_stmts sh))) sr.
+Proof.
+  do 3 eexists. split; [vm_compute; reflexivity|]. split; [vm_compute; reflexivity|].
+  split; [vm_compute; reflexivity|]. split; vm_compute; reflexivity.
+Qed.
